@@ -26,6 +26,7 @@ PRELUDE = (
     "fn fb() -> u32 { hit(); 7 } fn fb_opt() -> Option<u32> { hit(); Some(7) } "
     "fn e100(e: u32) -> u32 { hit(); e + 100 } "
     "#[derive(Debug, Clone, Copy, PartialEq)] struct KI(u32, char); "
+    "const fn cmp_ki(a: &KI, b: &KI) -> std::cmp::Ordering { konst::const_cmp!(a.0, b.0) } const fn key_ki(a: &KI) -> u32 { a.0 } "
 )
 
 
@@ -79,6 +80,14 @@ RES = {
 }
 
 
+# (the option:: / result:: macros only take `|pattern| expr` closures and paths: typed parameters and `-> T { .. }`
+# bodies are rejected by their closure parser, except for the argument-less fallbacks below)
+EXTRA_FORMS = {
+    ("option", "unwrap_or_else"): [("ret", ["|| -> u32 { hit(); 7u32 }"])],
+    ("option", "ok_or_else"): [("ret", ["|| -> u32 { hit(); 7u32 }"])],
+}
+
+
 def cases(r):
     """yield (body, exp, rec)"""
     fam, mac, arg, exp = r["fam"], r["mac"], r["arg"], r["exp"]
@@ -87,6 +96,10 @@ def cases(r):
         clo, path, stdm = table[mac]
         expect = "v=%s;called=%s" % (render(exp["val"]), "true" if exp["called"] else "false")
         forms = [("closure", clo)] + ([("path", path)] if path else [])
+        # other spellings of the same closure: typed parameter, explicit return type with a block body
+        extra = EXTRA_FORMS.get((fam, mac))
+        if extra:
+            forms += extra
         for fname, args in forms:
             call = "konst::%s::%s!(%s)" % (fam, mac, ", ".join([lit] + args))
             std = ""
@@ -181,6 +194,22 @@ def cases(r):
                         "format!(\"{:?}\", (%s, %s, sm, sx))" % (l, rr, l, rr, cmin, cmax))
                 e = "('%s', '%s', '%s', '%s')" % (emin, emax, emin, emax)
             yield body, e, dict(r, mac=name)
+        # every spelling of the comparator / key argument that the closure parser accepts: typed parameters, an explicit
+        # return type with a block body, a function path
+        for name, kmin, kmax in (
+            ("min_by!/max_by!(typed params)", "konst::min_by!(%s, %s, |a: &KI, b: &KI| konst::const_cmp!(a.0, b.0)).1" % (l, rr),
+             "konst::max_by!(%s, %s, |a: &KI, b: &KI| konst::const_cmp!(a.0, b.0)).1" % (l, rr)),
+            ("min_by!/max_by!(return type)", "konst::min_by!(%s, %s, |a, b| -> std::cmp::Ordering { konst::const_cmp!(a.0, b.0) }).1" % (l, rr),
+             "konst::max_by!(%s, %s, |a, b| -> std::cmp::Ordering { konst::const_cmp!(a.0, b.0) }).1" % (l, rr)),
+            ("min_by!/max_by!(function)", "konst::min_by!(%s, %s, cmp_ki).1" % (l, rr), "konst::max_by!(%s, %s, cmp_ki).1" % (l, rr)),
+            ("min_by_key!/max_by_key!(typed param)", "konst::min_by_key!(%s, %s, |a: &KI| a.0).1" % (l, rr),
+             "konst::max_by_key!(%s, %s, |a: &KI| a.0).1" % (l, rr)),
+            ("min_by_key!/max_by_key!(return type)", "konst::min_by_key!(%s, %s, |a| -> u32 { a.0 }).1" % (l, rr),
+             "konst::max_by_key!(%s, %s, |a| -> u32 { a.0 }).1" % (l, rr)),
+            ("min_by_key!/max_by_key!(function)", "konst::min_by_key!(%s, %s, key_ki).1" % (l, rr), "konst::max_by_key!(%s, %s, key_ki).1" % (l, rr)),
+        ):
+            body = "format!(\"{:?}\", (%s, %s))" % (kmin, kmax)
+            yield body, "('%s', '%s')" % (emin, emax), dict(r, mac=name)
         # the plain macros on every primitive type, the keys mapped to four order-preserving anchor values
         for ty, anchors in MM_TYPES:
             if lk >= len(anchors) or rk >= len(anchors):
